@@ -5,6 +5,7 @@ import (
 	"bytes"
 	"context"
 	"fmt"
+	iofs "io/fs"
 	"math/rand"
 	"os"
 	"os/exec"
@@ -39,7 +40,7 @@ func c04invalid(env *core.Env) []string {
 	var out []string
 	seen := map[string]bool{}
 	add := func(s string) {
-		if !hackpadfs.ValidPath(s) && !seen[s] && !strings.Contains(s, "\x00") && len(s) < 200 {
+		if !iofs.ValidPath(s) && !seen[s] && !strings.Contains(s, "\x00") && len(s) < 200 {
 			seen[s] = true
 			out = append(out, s)
 		}
@@ -329,7 +330,7 @@ func init() {
 	core.Register(&core.Prop{
 		ID:    "C04",
 		Level: "exploration",
-		Rule: "every FS method and package helper (17 single-name operations, Rename and Symlink with the invalid name first / second / both) is called on mem, keyvalue over a plain Store, mount (names invalid as a whole and invalid only after a mount point), a generic Sub view, a Sub view of os.FS, the cache, the tar FS (healthy and after a failed unpack), os.FS, a mount.FS mounted inside a mount.FS and a Sub view of a directory holding a mount point, in a populated and an (almost) empty state, with an enumerated corpus around the ValidPath boundary plus seeded fuzzed byte strings filtered by !ValidPath: the call must fail matching ErrInvalid and the snapshots of ALL constituent file systems must be unchanged. " +
+		Rule: "every FS method and package helper (17 single-name operations, Rename and Symlink with the invalid name first / second / both) is called on mem, keyvalue over a plain Store, mount (names invalid as a whole and invalid only after a mount point), a generic Sub view, a Sub view of os.FS, the cache, the tar FS (healthy and after a failed unpack), os.FS, a mount.FS mounted inside a mount.FS and a Sub view of a directory holding a mount point, in a populated and an (almost) empty state, with an enumerated corpus around the ValidPath boundary plus seeded fuzzed byte strings filtered by the standard library's !io/fs.ValidPath (not by the library's own ValidPath, which is part of what is checked): the call must fail matching ErrInvalid and the snapshots of ALL constituent file systems must be unchanged. " +
 			"Valid names containing backslash, colon, dots are never refused as invalid and are not split into elements. For os.FS the same calls run in a helper process under strace (-e trace=%file) with marker syscalls: no file syscall may occur between the markers of an invalid-name call. Operations a subject does not support at all (ErrNotImplemented for a valid name) are skipped. Non-trivial: all cases; distinct by (subject, state, operation)",
 		Assumptions: []string{"mount.AddMount refusing '.' is configuration, not covered", "names containing NUL or longer than 200 bytes are not generated", "strace sees the helper's locked OS thread; other threads' syscalls (runtime) are ignored"},
 		NumCases:    func(env *core.Env) int { return len(c04cases()) },
@@ -415,7 +416,7 @@ func c04run(env *core.Env, idx int) core.CaseResult {
 	}
 	// valid names with unusual bytes are never refused as invalid, and are not split
 	for _, name := range c04valid {
-		if !hackpadfs.ValidPath(name) {
+		if !iofs.ValidPath(name) {
 			continue
 		}
 		st := c04steps(cs.Op, name, "zz-other")
@@ -424,6 +425,21 @@ func c04run(env *core.Env, idx int) core.CaseResult {
 		sig := fmt.Sprintf("C04|%s|%s|valid-unusual|", cs.Subject, cs.Op)
 		if r.Panic != "" || r.Err == "ErrInvalid" {
 			res.Violate(sig+"refused", fmt.Sprintf("[%s] %s with the valid name %q returned %s", cs.Subject, cs.Op, name, r), map[string]any{"case": cs, "name": name})
+		}
+	}
+	if strings.HasPrefix(cs.Op, "Rename") {
+		// two valid names that only LOOK related: a directory moved into another directory whose name starts with the same
+		// characters, and a file moved next to such a name; neither is a move "into itself"
+		_ = hackpadfs.MkdirAll(sub.fs, "lk", 0o755)
+		_ = hackpadfs.MkdirAll(sub.fs, "lk-archive/2024", 0o755)
+		_ = hackpadfs.MkdirAll(sub.fs, "lk2", 0o755)
+		for _, pair := range [][2]string{{"lk", "lk-archive/2024/moved"}, {"lk2", "lk-archive/lk2"}, {"lk-archive/2024", "lk-archive/2024x"}} {
+			st := fsx.Step{K: "Rename", P: pair[0], P2: pair[1]}
+			r := fsx.Exec(sub.fs, st, &hs, nil)
+			res.Count("valid_calls", 1)
+			if r.Panic != "" || r.Err == "ErrInvalid" {
+				res.Violate(fmt.Sprintf("C04|%s|Rename|valid-lookalike|refused", cs.Subject), fmt.Sprintf("[%s] %s (two valid, unrelated names) returned %s", cs.Subject, st, r), map[string]any{"case": cs, "step": st.String()})
+			}
 		}
 	}
 	if cs.Op == "WriteFullFile" || cs.Op == "Mkdir" || cs.Op == "OpenFile" || cs.Op == "Create" {
